@@ -390,3 +390,185 @@ def _n1(interp, args, kwargs, node):
 def _n1h(interp, args, kwargs, node):
     axioms_step(interp.ctx, "hstep")
     return VBool(n1h_f(args[0].term, args[1].term, args[2].term))
+
+
+# ---- amino-acid composition histogram (kdtree pre-filter) ----------------------------------------------------
+REAL = z3.RealSort()
+AA = "ACDEFGHIKLMNPQRSTVWY"
+
+
+def aa_index(c):
+    return z3.IndexOf(z3.StringVal(AA), c, 0)
+
+
+def cnt_fun():
+    """cnt(s, t, b, comp) = #{p < t : floor(index(s[p]) / comp) = b}"""
+    def build(f, s, t, b, comp):
+        hit = z3.ToInt(z3.ToReal(aa_index(z3.SubString(s, t - 1, 1))) / comp) == b
+        return z3.If(t <= 0, 0, f(s, t - 1, b, comp) + z3.If(hit, 1, 0))
+    return S._recfun("cnt", [STR, INT, INT, REAL], INT, build)
+
+
+@S.spec("cnt")
+def _cnt(interp, args, kwargs, node):
+    s, t, b, comp = args
+    return VInt(cnt_fun()(s.term, to_int(t), to_int(b), to_real(comp)))
+
+
+def over_def(ctx):
+    """meaning of over(s, A): every character of s occurs in A (definition, used where characters are looked up)"""
+    if ("ax", "over-def") in ctx.axioms_added:
+        return
+    ctx.axioms_added.add(("ax", "over-def"))
+    s, A = z3.Const("s!o", STR), z3.Const("A!o", STR)
+    k = z3.Int("k!o")
+    ctx.assume_global(z3.ForAll([s, A, k], z3.Implies(z3.And(over_f(s, A), 0 <= k, k < z3.Length(s)),
+                                                      z3.Contains(A, z3.SubString(s, k, 1))),
+                                patterns=[z3.MultiPattern(over_f(s, A), z3.SubString(s, k, 1))]),
+                      "spec:over(s, A) means every character of s occurs in A")
+
+
+_orig_over = S.SPEC["over_alphabet"]
+
+
+def _over_alphabet2(interp, args, kwargs, node):
+    over_def(interp.ctx)
+    return _orig_over(interp, args, kwargs, node)
+
+
+S.SPEC["over_alphabet"] = _over_alphabet2
+
+enc_f = z3.Function("enc", STR, REAL, OBJ)                        # the histogram vector of a sequence
+sqd_f = z3.Function("sqdist", OBJ, OBJ, REAL)                     # squared Euclidean distance of two vectors
+
+
+@S.spec("hist_vec")
+def _hist_vec(interp, args, kwargs, node):
+    s, comp = args
+    ctx = interp.ctx
+    if ("ax", "enc") not in ctx.axioms_added:
+        ctx.axioms_added.add(("ax", "enc"))
+        axioms(ctx, "lev-basic")
+        a, b = z3.Const("a!e", STR), z3.Const("b!e", STR)
+        c = z3.Real("c!e")
+        ctx.assume_global(z3.ForAll([a, b, c], z3.Implies(c >= 1, z3.And(
+            sqd_f(enc_f(a, c), enc_f(b, c)) >= 0,
+            sqd_f(enc_f(a, c), enc_f(b, c)) <= 2 * z3.ToReal(lev_f(a, b)) * z3.ToReal(lev_f(a, b)))),
+            patterns=[sqd_f(enc_f(a, c), enc_f(b, c))]),
+            "lemma:L-enc (Lean) squared Euclidean distance of composition histograms <= 2 lev^2, for any binning")
+    o = VObj("histvec", enc_f(s.term, to_real(comp)))
+    return o
+
+
+# ---- rapidfuzz.process.extract, candidate enumeration, fancy indexing -----------------------------------------
+
+def enumerate_bag(interp, lst):
+    """Turn a de-duplicated candidate list held as an unordered comprehension into an (arbitrary but fixed)
+    enumeration: a sequence that hits every member exactly once."""
+    bag = lst.content
+    if not isinstance(bag, CompBag):
+        return
+    ctx = interp.ctx
+    e0 = bag.sites[0].elem if bag.sites else VInt(0)
+    if not all(isinstance(s.elem, VInt) for s in bag.sites):
+        raise Unsupported("enumeration of a non-integer bag")
+    n = ctx.fresh("ncand", INT)
+    enum = ctx.fresh_fun("cand", INT, INT)
+    pos = ctx.fresh_fun("candpos", INT, INT)
+    p, q, x = z3.Int("p!en"), z3.Int("q!en"), z3.Int("x!en")
+    mem = lambda t: S.bag_contains(interp, bag, VInt(t))
+    ctx.assume(n >= 0)
+    ctx.assume(z3.ForAll([p], z3.Implies(z3.And(0 <= p, p < n), mem(enum(p))), patterns=[enum(p)]),
+               "python:list(iterable) enumerates the members of the iterable")
+    ctx.assume(z3.ForAll([p, q], z3.Implies(z3.And(0 <= p, p < q, q < n), enum(p) != enum(q))))
+    ctx.assume(z3.ForAll([x], z3.Implies(mem(x), z3.And(0 <= pos(x), pos(x) < n, enum(pos(x)) == x)), patterns=[pos(x)]))
+    lst.content = SymSeq(n, lambda k: VInt(enum(k)), T.Int)
+    lst.enum_pos = pos
+
+
+def _fancy_index(interp, base, idx, node):
+    if isinstance(base, VList) and base.kind == "ndarray" and isinstance(idx, VList) and idx.kind == "list" \
+            and isinstance(base.content, SymSeq):
+        if isinstance(idx.content, CompBag):
+            enumerate_bag(interp, idx)
+        if isinstance(idx.content, (SymSeq, ConcreteSeq)):
+            interp.ctx.assumed.add("extern:numpy fancy indexing a[list] is the array of a[k] for k in list, in order")
+            n = interp.seq_len(idx)
+            r = VList(SymSeq(n, lambda p: base.content.at(to_int(interp.seq_at(idx, p))), base.content.elem_kind), "ndarray")
+            return interp.born(r)
+    if isinstance(base, VList) and isinstance(base.content, CompBag) and isinstance(idx, VInt) and base.kind == "list":
+        enumerate_bag(interp, base)
+        return None
+    return None
+
+
+E.HOOKS["index"].insert(0, _fancy_index)
+
+
+@extern("rapidfuzz.process.extract")
+def rf_extract(interp, args, kwargs, node):
+    """extract(query, choices, scorer, score_cutoff, limit=None): (choice, score, index) for exactly the indices with
+    score <= score_cutoff, each once (distance-type scorers)"""
+    query, choices = args[0], args[1]
+    scorer = kwargs.get("scorer")
+    cutoff = kwargs.get("score_cutoff")
+    limit = kwargs.get("limit", NONE)
+    if not isinstance(limit, VNone):
+        raise Unsupported("rapidfuzz.process.extract with limit (max_returns) is not modelled")
+    ov = E.ordered_view(interp, choices, node)
+    if ov is None:
+        raise Unsupported("extract over unordered choices")
+    n, at = ov
+    ctx = interp.ctx
+    p = ctx.fresh("xp", INT)
+    mark = ctx.mark()
+    try:
+        ctx.assume(z3.And(0 <= p, p < n))
+        score = interp.call(scorer, [query, at(p)], {}, node)
+    finally:
+        ctx.reset(mark)
+    ctx.assumed.add("extern:rapidfuzz.process.extract keeps exactly the choices with score <= score_cutoff, each once, "
+                    "as (choice, score, index)")
+    cond = z3.And(0 <= p, p < n, interp.order("LtE", score, cutoff, node))
+    out = VList(CompBag([Site("extract", [p], cond, VTuple([at(p), score, VInt(p)]))]), "list")
+    out.setlike = True
+    return interp.born(out)
+
+
+@S.spec("enum_pos")
+def _enum_pos(interp, args, kwargs, node):
+    """position of x in the enumeration the code made of a candidate collection (witness hint)"""
+    lst, x = args
+    f = getattr(lst, "enum_pos", None)
+    if f is None:
+        raise Unsupported("enum_pos: the collection was not enumerated")
+    return VInt(f(to_int(x)))
+
+
+@S.spec("cand_triplets")
+def _cand_triplets(interp, args, kwargs, node):
+    """{(i, j, value(s_i, s_j)) : j in cand, j != i, neighbour(s_i, s_j)} -- one query's contribution, each once"""
+    i, cand, seqs, pred, val = args
+    ctx = interp.ctx
+    j = ctx.fresh("j", INT)
+    a, b = interp.seq_at(seqs, to_int(i)), interp.seq_at(seqs, j)
+    cond = z3.And(interp.contains(cand, VInt(j)), j != to_int(i),
+                  interp.as_bool_term(interp.call(pred, [a, b], {}, node)))
+    out = VList(CompBag([Site("spec", [j], cond, VTuple([i, VInt(j), interp.call(val, [a, b], {}, node)]))]), "list")
+    out.setlike = True
+    return out
+
+
+@S.spec("all_cand_triplets")
+def _all_cand_triplets(interp, args, kwargs, node):
+    """union over all queries i of cand_triplets(i, y_indices[i], ...)"""
+    y_indices, seqs, pred, val = args
+    ctx = interp.ctx
+    i, j = ctx.fresh("i", INT), ctx.fresh("j", INT)
+    n = interp.seq_len(y_indices)
+    a, b = interp.seq_at(seqs, i), interp.seq_at(seqs, j)
+    cond = z3.And(0 <= i, i < n, interp.contains(interp.seq_at(y_indices, i), VInt(j)), j != i,
+                  interp.as_bool_term(interp.call(pred, [a, b], {}, node)))
+    out = VList(CompBag([Site("spec", [i, j], cond, VTuple([VInt(i), VInt(j), interp.call(val, [a, b], {}, node)]))]), "list")
+    out.setlike = True
+    return out
